@@ -15,6 +15,7 @@ package helper
 func Skip[T any](c <-chan T, count int) <-chan T {
 	result := make(chan T, cap(c))
 
+	VerifStage("Skip", count, []any{c}, []any{result})
 	go func() {
 		for i := 0; i < count; i++ {
 			_, ok := <-c
